@@ -216,8 +216,8 @@ func c10WideValid(rng *rand.Rand) (lib, inv string) {
 pipeline INNER(
     in  int      base,
     in  string   tag,
-    out map<int> rs,
-    out map<txt> fs,
+    out int      total,
+    out txt      base_file,
 )
 {
     map call ONE(
@@ -231,8 +231,8 @@ pipeline INNER(
     )
 
     return (
-        rs = ONE.r,
-        fs = ONE.f,
+        total     = BASE.r,
+        base_file = BASE.f,
     )
 }
 
@@ -290,9 +290,10 @@ type c10Obs struct {
 }
 
 func c10Observe(rt *core.Runtime, p *c10Prog, scratch string, withState bool, n int) (o c10Obs) {
+	stage := &o.Compile
 	defer func() {
 		if r := recover(); r != nil {
-			o.Compile += fmt.Sprintf("PANIC: %v", r)
+			*stage += fmt.Sprintf("PANIC: %v", r)
 		}
 	}()
 	clean := func(s string) string { return strings.ReplaceAll(s, p.dir, "$D") }
@@ -302,6 +303,7 @@ func c10Observe(rt *core.Runtime, p *c10Prog, scratch string, withState bool, n 
 		return
 	}
 	o.Compile = clean(post)
+	stage = &o.CallGraph
 	cg, err := ast.MakePipelineCallGraph("ID.ps.", ast.Call)
 	if err != nil {
 		o.CallGraph = "ERR:" + clean(err.Error())
@@ -314,6 +316,7 @@ func c10Observe(rt *core.Runtime, p *c10Prog, scratch string, withState bool, n 
 		o.CallGraph = clean(string(b))
 	}
 	if withState && rt != nil {
+		stage = &o.State
 		psdir := filepath.Join(scratch, fmt.Sprintf("c10ps-%d-%d", os.Getpid(), n))
 		defer os.RemoveAll(psdir)
 		ps, err := rt.InvokePipeline(p.inv, filepath.Join(p.dir, "invocation.mro"), "ps", psdir, []string{p.dir}, "verif", nil, nil)
@@ -442,6 +445,10 @@ func runC10(c *Ctx) {
 			r.hist("outcome:call-graph-error")
 		} else if strings.HasPrefix(first[i].State, "ERR:") {
 			r.hist("outcome:invoke-error")
+		} else if strings.Contains(first[i].Compile+first[i].CallGraph+first[i].State, "PANIC: ") {
+			r.hist("outcome:panic")
+			r.note("deterministic panic while observing a %s program (not a C10 matter): %s", p.class,
+				head(first[i].Compile+first[i].CallGraph+first[i].State, 160))
 		} else {
 			r.hist("outcome:ok")
 		}
